@@ -174,6 +174,9 @@ def one_case(rng, flavour=None, max_sections=2500, fixed=None, timed=False):
     graph_t = x.graph_term()
     store_t = x.store_term(store)
     run = trav.Run(g, workers, x, store, None, max_sections=max_sections)
+    # a replayed schedule may not fit the tree it is replayed on (a worker leaves earlier): continue with any schedule then
+    run.free_after_fixed = bool(fixed)
+    run.fixed_terminated = bool(fixed[3]) if fixed and len(fixed) > 3 else True
     run.go(rng, outcome_policy(rng, spec), wake_bias=rng.choice([0.2, 0.5, 0.9]),
            fixed=[tuple(s) for s in fixed[2]] if fixed else None, timed=timed)
     run_timed = timed
@@ -221,6 +224,13 @@ def search_around(rng, case, n, max_sections=1500):
             for leaf in spec["leaves"]:
                 leaf.pop("only_workers", None)
         timed = (k % 3 == 2)
+        if timed:
+            # as in one_case: short time-outs keep the number of back-off periods per test small
+            spec["node_params"]["test_timeout"] = rng.choice(["1", "2", "3"])
+            for sts in spec["states"].values():
+                for st in sts:
+                    if "test_timeout" in st.get("params", {}):
+                        st["params"]["test_timeout"] = rng.choice(["1", "2", "4"])
         g, workers, root = trav.build_graph(spec)
         x = trav.Export(g, workers)
         store = {} if variant else {(None if kk == "None" else kk): {tuple(t) for t in v} for kk, v in case["store"].items()}
